@@ -83,7 +83,7 @@ def main():
           for p in props if p not in CHECKS]
     m = {
         "version": 1,
-        "setup_cmd": "./check --build",
+        "setup_cmd": "./check --build --all-profiles",
         "hooks": {
             "guard": "--cfg arroy_verif",
             "enable": "rustflags [\"--cfg\",\"arroy_verif\"] in /verif/harness/.cargo/config.toml (arroy is a path dependency of the harness)",
